@@ -205,7 +205,7 @@ func step(ctx context.Context, e execer, kind string, lit bool) (o outcome) {
 }
 
 // program runs the whole program on one database; returns per-step outcomes
-func program(ctx context.Context, db *sql.DB, sc scenario) (outs []outcome) {
+func program(ctx context.Context, db *sql.DB, srv *memsql.Server, sc scenario) (outs []outcome) {
 	var tx *sql.Tx
 	var e execer = db
 	for _, k := range sc.Prog {
@@ -240,6 +240,10 @@ func program(ctx context.Context, db *sql.DB, sc scenario) (outs []outcome) {
 			}
 			outs = append(outs, outcome{k, errClass(err)})
 			tx, e = nil, db
+		case "drop":
+			// the environment's step: the server closes the connections that sit idle in the pool, silently
+			srv.DropIdleSilently()
+			outs = append(outs, outcome{"dropped", ""})
 		default:
 			outs = append(outs, step(ctx, e, k, sc.Lit))
 		}
@@ -342,16 +346,16 @@ func main() {
 		t := w.Begin(map[string]interface{}{"i": i, "sc": sc}, cls)
 		reset()
 		t.Add("Start", "gtx", sc.Gtx, "lit", sc.Lit, "sig", "start")
-		outsB := program(context.Background(), bare, sc)
+		outsB := program(context.Background(), bare, srvB, sc)
 		var outsP []outcome
 		if sc.Gtx {
 			_ = tm.WithGlobalTx(context.Background(), &tm.GtxConfig{Name: "proxy", Timeout: 30 * time.Second}, func(ctx context.Context) error {
 				lab.Coord.ClearLog()
-				outsP = program(ctx, proxied, sc)
+				outsP = program(ctx, proxied, srvP, sc)
 				return nil
 			})
 		} else {
-			outsP = program(context.Background(), proxied, sc)
+			outsP = program(context.Background(), proxied, srvP, sc)
 		}
 		intxStep := false
 		for k, kind := range sc.Prog {
